@@ -275,9 +275,11 @@ func c05Jobs(tier string) []Job {
 // ----- C06 -----------------------------------------------------------------------------------------------
 
 // c06Model is the reference of the property's quantifier: "a reference map with an explicit FIFO
-// of pending writes". The FIFO's contents are the implementation's own write buffer (the
-// sequential driver logs which buffered item each applier step consumed); the model decides
-// what the map must contain after every client call and every applier step.
+// of pending writes". The reference FIFO holds what the CLIENT CALLS put into the write buffer
+// (the sequential driver logs every item a client step appended: a Set appends its own item, a
+// Del its tombstone, a Wait its marker); the implementation's buffer is mirrored item by item,
+// and an item that no call accounts for (a read that queues a delete, say) is marked foreign: the
+// implementation applies it, the reference does not - if that matters, the maps diverge.
 type c06Entry struct {
 	val, exp, ttl int64 // exp in ns since the virtual epoch, 0: none
 }
@@ -289,7 +291,11 @@ type c06Model struct {
 	// Outside is set when a new item did not fit in the remaining capacity: the admission is
 	// then the eviction policy's business (C09), outside this property's antecedent
 	Outside bool
-	byVal map[int64]c06Entry // every value ever passed to Set, with the expiration fixed at call time
+	// Foreign counts write-buffer items that no client call accounts for
+	Foreign int
+	// Mirror: for every item still in the implementation's buffer, whether the reference FIFO holds it
+	Mirror []bool
+	byVal  map[int64]c06Entry // every value ever passed to Set, with the expiration fixed at call time
 	keyOf map[int64]int64
 }
 
@@ -305,6 +311,9 @@ func c06Replay(evs []vsched.Event) (*c06Model, []Viol) {
 	}
 	var lastApplied *vsched.Event
 	var out []Viol
+	// mirror of the implementation's write buffer: true = the item belongs to the reference FIFO
+	var mirror []bool
+	var curCall vsched.Event // the client call in progress (Kind 0: none)
 	visible := func(k, now int64) (c06Entry, bool) {
 		e, ok := m.M[k]
 		if !ok || (e.exp != 0 && now > e.exp) {
@@ -314,7 +323,24 @@ func c06Replay(evs []vsched.Event) (*c06Model, []Viol) {
 	}
 	for _, e := range evs {
 		switch e.Kind {
+		case evGetCall, evGetTTLCall, evWaitCall, evIterCall:
+			curCall = e
+		case evEnq:
+			mine := false
+			switch curCall.Kind {
+			case evSetCall:
+				mine = (e.C == 0 || e.C == 2) && e.B == curCall.B
+			case evDelCall:
+				mine = e.C == 1 && e.A == curCall.A
+			case evWaitCall:
+				mine = e.C == 3
+			}
+			mirror = append(mirror, mine)
+			if !mine {
+				m.Foreign++
+			}
 		case evSetCall:
+			curCall = e
 			if e.C < 0 {
 				continue // negative ttl: a no-op
 			}
@@ -327,10 +353,29 @@ func c06Replay(evs []vsched.Event) (*c06Model, []Viol) {
 				m.M[e.A] = ent // an overwrite of a resident key takes effect immediately
 			}
 		case evDelCall:
+			curCall = e
 			delete(m.M, e.A) // deleted immediately; the tombstone travels through the FIFO
+		case evOnEvict:
+			// expiry processing removed an entry whose TTL had elapsed (WHEN a sweep gets to an
+			// expired entry is C14's business: the reference follows the implementation here; an
+			// eviction of anything else leaves the reference alone, and the maps diverge)
+			if ent, ok := m.M[e.A]; ok && e.B != 0 && ent.val == e.B && ent.exp != 0 && e.T > ent.exp {
+				delete(m.M, e.A)
+				delete(m.P, e.A)
+				delete(m.Cost, e.A)
+			}
 		case evClearRet:
+			mirror = nil // Clear drains the buffer
 			m.M, m.P = map[int64]c06Entry{}, map[int64]bool{}
 		case evApplied:
+			mine := true
+			if len(mirror) > 0 {
+				mine, mirror = mirror[0], mirror[1:]
+			}
+			if !mine {
+				lastApplied = nil // a foreign item: the reference FIFO never held it
+				continue
+			}
 			ev := e
 			lastApplied = &ev
 			if e.C == 1 { // tombstone
@@ -390,6 +435,7 @@ func c06Replay(evs []vsched.Event) (*c06Model, []Viol) {
 			}
 		}
 	}
+	m.Mirror = mirror
 	return m, out
 }
 
@@ -453,28 +499,7 @@ func c06Oracle(r *SeqRun) []Viol {
 		}
 	}
 	// the map and the accounting equal the reference in the state reached
-	got := map[int64]c06Entry{}
-	for _, e := range r.Post.Store {
-		x := c06Entry{val: e.Value}
-		if !e.Expiration.IsZero() {
-			x.exp = e.Expiration.Sub(vtimeBase()).Nanoseconds()
-		}
-		got[int64(e.Key)] = x
-	}
-	for k, want := range m.M {
-		g, ok := got[k]
-		switch {
-		case !ok:
-			out = append(out, Viol{Key: "C06/map-lost-entry", What: fmt.Sprintf("the map does not hold key %d but the reference map holds value %d", k, want.val)})
-		case g.val != want.val || g.exp != want.exp:
-			out = append(out, Viol{Key: "C06/map-holds-other-entry", What: fmt.Sprintf("the map holds (value %d, exp %d) for key %d but the reference map holds (value %d, exp %d)", g.val, g.exp, k, want.val, want.exp)})
-		}
-	}
-	for k, g := range got {
-		if _, ok := m.M[k]; !ok {
-			out = append(out, Viol{Key: "C06/map-holds-extra-entry", What: fmt.Sprintf("the map holds key %d (value %d) but the reference map does not", k, g.val)})
-		}
-	}
+	out = append(out, c06CompareMap(r, m, "C06")...)
 	acc := map[int64]bool{}
 	for _, c := range r.Post.Costs {
 		acc[int64(c.Key)] = true
@@ -502,14 +527,49 @@ func c06Oracle(r *SeqRun) []Viol {
 	return out
 }
 
+// c06CompareMap: the stored entries (value and expiration) equal the reference map.
+func c06CompareMap(r *SeqRun, m *c06Model, id string) []Viol {
+	var out []Viol
+	got := map[int64]c06Entry{}
+	for _, e := range r.Post.Store {
+		x := c06Entry{val: e.Value}
+		if !e.Expiration.IsZero() {
+			x.exp = e.Expiration.Sub(vtimeBase()).Nanoseconds()
+		}
+		got[int64(e.Key)] = x
+	}
+	for k, want := range m.M {
+		g, ok := got[k]
+		switch {
+		case !ok:
+			out = append(out, Viol{Key: id + "/map-lost-entry", What: fmt.Sprintf("the map does not hold key %d but the reference map holds value %d", k, want.val)})
+		case g.val != want.val || g.exp != want.exp:
+			out = append(out, Viol{Key: id + "/map-holds-other-entry", What: fmt.Sprintf("the map holds (value %d, exp %d) for key %d but the reference map holds (value %d, exp %d)", g.val, g.exp, k, want.val, want.exp)})
+		}
+	}
+	for k, g := range got {
+		if _, ok := m.M[k]; !ok {
+			out = append(out, Viol{Key: id + "/map-holds-extra-entry", What: fmt.Sprintf("the map holds key %d (value %d) but the reference map does not", k, g.val)})
+		}
+	}
+	return out
+}
+
 func c06Outside(r *SeqRun) bool {
 	m, _ := c06Replay(r.Events)
 	return m.Outside
 }
 
-// The reference model is a function of the implementation state that is already in the key
-// (map, accounting) whenever no violation has occurred, so it adds nothing to the key.
-func c06Abstract(r *SeqRun, ren func(int64) int64) string { return "" }
+// The reference map and accounting are a function of the implementation state that is already in
+// the key whenever no violation has occurred; which buffered items are foreign to the reference
+// FIFO is not, and is part of the key.
+func c06Abstract(r *SeqRun, ren func(int64) int64) string {
+	m, _ := c06Replay(r.Events)
+	if m.Foreign == 0 {
+		return ""
+	}
+	return fmt.Sprint(m.Mirror)
+}
 
 func c06Seq(tier string) []SeqJob {
 	var out []SeqJob
